@@ -286,6 +286,7 @@ PROPS["C14"] = {
     "budget_s": {"quick": 90, "thorough": 2700},
     "modes": [{"name": "", "runs": {"quick": 5000, "thorough": 100000}, "chunk": 250},
               {"name": "handlers", "runs": {"quick": 2500, "thorough": 60000}, "chunk": 250},
+              {"name": "statements", "runs": {"quick": 1500, "thorough": 40000}, "chunk": 150},
               {"name": "race", "runs": {"quick": 70, "thorough": 2000}, "chunk": 5, "race": True}],
     "rule": ("mode '' (tier E): one run = a fixed generated store and configuration whose single-request answer cannot depend on the schedule (rewrite-free or ||-only, limits non-binding) and 2-6 requests (check, batch check of 2-4 tuples, expand, list) started together in one synctest bubble; "
              "4 (quick) / 12 (thorough) tape-chosen interleavings of ALL their storage calls; every concurrent result must equal the result of the same request run alone. "
